@@ -320,8 +320,36 @@ func (a *fpAnalysis) stringifyLocals() {
 // argument the caller passed.
 func (a *fpAnalysis) constI64(e ast.Expr) (int64, bool) {
 	for depth := 0; depth < 4; depth++ {
+		e = ast.Unparen(e)
 		if v, ok := ConstI64(a.info, e); ok {
 			return v, true
+		}
+		// T(x): a conversion of something constant
+		if call, ok := e.(*ast.CallExpr); ok && len(call.Args) == 1 {
+			if tv, ok := a.info.Types[call.Fun]; ok && tv.IsType() {
+				e = call.Args[0]
+				continue
+			}
+		}
+		// s[i] with s a (bound) string constant and i a constant
+		if ix, ok := e.(*ast.IndexExpr); ok {
+			if i, ok := ConstI64(a.info, ix.Index); ok {
+				se := ast.Expr(ix.X)
+				for d2 := 0; d2 < 4; d2++ {
+					if str, ok := ConstStr(a.info, se); ok {
+						if int(i) < len(str) {
+							return int64(str[i]), true
+						}
+						return 0, false
+					}
+					arg, ok := a.bound[IdentObj(a.info, se)]
+					if !ok {
+						break
+					}
+					se = arg
+				}
+			}
+			return 0, false
 		}
 		o := IdentObj(a.info, e)
 		arg, ok := a.bound[o]
@@ -489,9 +517,16 @@ func ruleFP(c *Ctx, which string) {
 				}
 				ft := p.Flags()
 				seenComma, seenMulti := false, false
-				InspectNoLit(f.Body(), func(n ast.Node) bool {
+				// in the function (subject or walked helper) that holds the store
+				holder := f
+				for _, g := range a.scope {
+					if b := g.Body(); b != nil && g != f && b.Pos() <= ps && ps <= b.End() {
+						holder = g
+					}
+				}
+				InspectNoLit(holder.Body(), func(n ast.Node) bool {
 					if call, ok := n.(*ast.CallExpr); ok && call.Pos() < ps {
-						if m, _, v, ok := FlagCall(f.Info(), call); ok && m == "Get" {
+						if m, _, v, ok := FlagCall(holder.Info(), call); ok && m == "Get" {
 							if v&^1 == ft.Single["SpaceAfterComma"] {
 								seenComma = true
 							}
